@@ -34,7 +34,7 @@ HAS_NBEST = ('xml', 'jigg_xml', 'json', 'html')
 
 def shards(tier, seed):
     q = tier == 'quick'
-    return [{'name': f'{lang}{k}', 'lang': lang, 'cases': 45 if q else 4000, 'budget_s': 45 if q else 600}
+    return [{'name': f'{lang}{k}', 'lang': lang, 'cases': 150 if q else 4000, 'budget_s': 45 if q else 600}
             for lang in ('en', 'ja') for k in range(8)]
 
 
